@@ -73,12 +73,19 @@ def _gen_episode(rng, allow_stdin):
         damage = {"kind": "badmagic", "magic": rng.choice([0xD4C3B2A1, 0x4D3CB2A1, 0x0A0D0D0A, 0, 0xA1B2C3D5, 0xFFFFFFFF])}
     elif d == "shorthdr":
         damage = {"kind": "trunc", "at": rng.range(0, 23)}
-    # calls
+    # calls: read_all(f) is mostly kept for the end so that the other calls meet records;
+    # at most three calls past the end
     calls = []
     remaining = len(recs)
     ncalls = rng.range(1, 14)
-    for _ in range(ncalls):
-        c = rng.weighted([(50, "next"), (15, "all"), (35, "alln")])
+    past = 0
+    for j in range(ncalls):
+        last = j >= ncalls - 2
+        if remaining == 0:
+            past += 1
+            if past > 3:
+                break
+        c = rng.weighted([(50, "next"), (25 if last else 4, "all"), (35, "alln")])
         if c == "next":
             calls.append(["next"])
             remaining = max(0, remaining - 1)
@@ -86,12 +93,11 @@ def _gen_episode(rng, allow_stdin):
             calls.append(["all"])
             remaining = 0
         else:
-            n = rng.weighted([(10, 0), (20, 1), (25, rng.range(2, 5)), (15, max(0, remaining - 1)), (15, remaining), (15, remaining + rng.range(1, 3))])
+            left = max(1, ncalls - j)
+            n = rng.weighted([(6, 0), (20, 1), (25, rng.range(2, 5)), (10, max(0, remaining - 1)), (10, remaining), (10, remaining + rng.range(1, 3)),
+                              (19, max(1, remaining // left))])
             calls.append(["alln", n])
             remaining = max(0, remaining - n)
-    # a few calls past the end
-    for _ in range(rng.range(0, 3)):
-        calls.append(rng.choice([["next"], ["all"], ["alln", 2]]))
     return {"hdr": hdr, "recs": recs, "source": source, "damage": damage, "calls": calls}
 
 
